@@ -10,4 +10,5 @@ SHIMS = [
     "S8 floats made from ints are exact reals (sound for |x| <= 2**53)",
     "S9 json.dump(s) realise their arguments (C boundary)",
     "S10 loggers of harness-built CsvPath/CsvPaths objects disabled",
+    "S11 LarkPrintParser construction and Lark parse of a concrete print string run natively",
 ]
